@@ -116,6 +116,7 @@ type Case struct {
 	Flags  uint16 `json:"flags"` // header flag word with QR cleared
 	Settle int    `json:"settle"` // ms to wait for straggling copies (dual_selector / fallback)
 	Pair   bool   `json:"pair"`   // two interleaved clients (IDs id and id^0x1111) hit the same stale cache entry
+	Follow bool   `json:"follow"` // after the query, a second client (ID id+0x0101) asks for the redirect TARGET name
 	Chunk  string `json:"chunk"`  // tcp: how the client writes a frame: whole | prefix11 | prefix_body | bytes
 	Reps   int    `json:"reps"`   // tcp: queries (IDs id, id+1, ...) sent one after the other on the same connection
 }
@@ -1229,7 +1230,10 @@ func runCase(c *Case) (res Result) {
 	if c.Pair {
 		ids = append(ids, c.ID^0x1111)
 	}
-	tcpSeq := c.Mode == "tcp" && !c.Pair
+	if c.Follow {
+		ids = append(ids, c.ID+0x0101)
+	}
+	tcpSeq := c.Mode == "tcp" && !c.Pair && !c.Follow
 	if tcpSeq {
 		for k := 1; k < c.Reps; k++ {
 			ids = append(ids, c.ID+uint16(k))
@@ -1259,6 +1263,9 @@ func runCase(c *Case) (res Result) {
 	for i, id := range ids {
 		cc := *c
 		cc.ID = id
+		if c.Follow && i == 1 {
+			cc.Name = c.Target
+		}
 		q := buildQuery(&cc)
 		wire, err := q.Pack()
 		if err != nil {
@@ -1299,6 +1306,9 @@ func runCase(c *Case) (res Result) {
 	for _, cl := range cls {
 		if tcpSeq {
 			break
+		}
+		if c.Follow {
+			cwg.Wait() // one after the other
 		}
 		cwg.Add(1)
 		go func(cl *client) {
